@@ -19,6 +19,11 @@ import ownership as O
 def _leaves(t):
     if isinstance(t, tuple) and t[0] == "op" and t[1] == "add":
         return _leaves(t[3]) + _leaves(t[4])
+    if isinstance(t, tuple) and t[0] == "op" and t[1] == "sub":
+        # a total kept as a pointer difference (cursor - buffer): the summands are what remains after the bases cancel
+        lin = P.linear(t)
+        if lin and all(c == 1 for c in lin.values()):
+            return [("c", k) if a == 1 else a for a, k in ((a, c) for a, c in lin.items())] if 1 not in lin else [t]
     return [t]
 
 
